@@ -273,8 +273,8 @@ func RunDriver(p Property, o DriverOpts) int {
 					ws.viols = append(ws.viols, Violation{Index: idx, Class: class, Msg: msg, Detail: tail(string(eb), 3000)})
 				}
 				ws.crashes++
-				if ws.crashes >= 40 {
-					ws.inconcl = append(ws.inconcl, fmt.Sprintf("worker %d: more than 40 process deaths; remaining cases of this shard not run", k))
+				if ws.crashes >= 12 {
+					ws.inconcl = append(ws.inconcl, fmt.Sprintf("worker %d: more than 12 process deaths; remaining cases of this shard not run", k))
 					return
 				}
 				if idx < 0 {
